@@ -25,7 +25,7 @@ RULE = ("configuration = TCP with 1-3 resolved addresses (mixed families) / UNIX
         "after a failure opens a fresh socket and answers correctly; connect() happens under connect_timeout and every "
         "sendall/recv under timeout; with TLS no I/O on the raw socket; if socket()/wrap fails for some resolved "
         "addresses and works for a later one the call succeeds using that address. Refused items: a batch in which the server refuses one item (too large for it, out of memory, NOT_STORED from a proxy) and answers the others, replies delivered apart or coalesced, a fault at every socket event of the exchange and on the replies that follow the refusal. Connection-ending calls (shutdown - graceful or not - on a server that does not allow it, quit, an unknown command, incr on text, refused arguments, close) once or twice in a row, before and after ordinary calls, without any fault: the connections opened afterwards are set up like the first. Object shutdown: Client / PooledClient / HashClient over three servers (pooled or not) / the ElastiCache client (pooled or not, with and without a reconfigure_nodes()) x traffic on 0, 1 or many keys x every documented way of shutting the object down (close, quit, disconnect_all), once and again after more traffic: afterwards no socket any part of the object opened is open. Non-trivial: a fault during "
-        "connection establishment, or a failure followed by a successful reconnect, or more than one resolved address. Outage then shutdown: every sequence of up to 6 events (random: 16) over {a call to the first server after retry_timeout / at once, six calls over all servers, first server down / up, +70 s, a flush_all broadcast} on a HashClient (pooled or not, retry_attempts 0-3, 1-3 servers), then the server up and close / disconnect_all / quit: no socket may be left open (a quit() that raises is followed by close()).")
+        "connection establishment, or a failure followed by a successful reconnect, or more than one resolved address. Outage then shutdown: every sequence of up to 6 events (random: 16) over {a call to the first server after retry_timeout / at once, six calls over all servers, first server down / up, +70 s, a flush_all broadcast} on a HashClient (pooled or not, retry_attempts 0-3, 1-3 servers), then the server up and close / disconnect_all / quit: no socket may be left open (a quit() that raises is followed by close()). Faults at close events include interruptions (KeyboardInterrupt, SystemExit, a BaseException of another kind), passed on to the caller.")
 MANIFEST = {
     "category": "fault_enumeration",
     "technique": "systematic single- and double-fault enumeration over every socket-level event of connection establishment and one exchange (positions from a fault-free dry run) x connection configurations + Hypothesis multi-call histories; lifecycle-log invariants",
